@@ -18,6 +18,9 @@ run(ctx)
                   Float instance of the proven `sepHav`.
   3. polygons: the same with `add_poly` / `query_polygon`; vertices on a circle (so the circumscribed
      circle is known), 3–8 vertices, both orientations; Spec `pspec`.
+  3b. adversarial pixel geometry: per depth the most elongated pixels are found with hp.boundaries (corner-to-centre
+     distance / nside2resol, up to 1.0446); sub-pixel discs are centred in the outer 0.05-4.5 % of their long diagonal, and
+     larger discs are placed so that only that tip is inside; also around base-pixel corners and the |z| = 2/3 transition.
   4. malformed stream: fewer than three polygon positions, depth > maxdepth, depth None, NaN / inf
      query coordinates.
   5. the healpy CONTRACT assumed by the `…_partial` theorems is SAMPLED (never proved): at small nside,
@@ -63,8 +66,9 @@ PARTIAL = [
     "by the numeric hypothesis); contract sampled",
     "circle_area_between_caps_partial / circle_area_closed_form_partial: proved for any measure with equal-measure disjoint pixels; "
     "that the sphere's surface measure is such a measure and gives caps 2*pi*(1-cos r) is assumed",
-    "poly_contains_partial, poly_excludes_far_partial, poly_excludes_beyond_partial: proved from the PolyQuery contract; contract sampled; "
-    "that the half-space polygon lies inside its circumscribed circle is a hypothesis (edges: circumcircle_contains_edge)",
+    "poly_contains_partial, poly_excludes_far_partial, poly_excludes_beyond_partial, poly_excludes_beyond_convex_partial: proved from the "
+    "PolyQuery contract; contract sampled; that the polygon lies inside its circumscribed circle is proved (poly_in_circumcircle) for "
+    "fan-convex polygons with circumradius <= pi/2",
 ]
 
 TWO_PI = 2 * math.pi
@@ -991,6 +995,128 @@ def malformed_cases():
 CHUNK = 16
 
 
+# ---------------------------------------------------------------------------------------------
+# adversarial pixel geometry: the acute tips of the most elongated pixels, base-pixel corners,
+# the polar-cap / equatorial-belt transition
+# ---------------------------------------------------------------------------------------------
+
+_TIPS = {}
+
+
+def _normalise(v):
+    return v / np.linalg.norm(v, axis=-1, keepdims=True)
+
+
+def tip_pixels(depth, keep=16):
+    """per depth, the pixels maximising (corner-to-centre distance) / nside2resol, found with hp.boundaries.
+    Exhaustive up to depth 5; deeper, candidates are the pixels (and their neighbours) around the long
+    diagonals of depth 5's extremes, around the base-pixel corners and on the |z| = 2/3 transition, where
+    the elongated pixels sit at every depth.  Returns [(ratio, pixel, centre, corners(4,3), far corner index)]."""
+    import healpy as hp
+    if depth in _TIPS:
+        return _TIPS[depth]
+    ns = 2 ** depth
+    if depth <= 5:
+        cand = np.arange(12 * ns * ns)
+    else:
+        pts = []
+        for ratio, p, c0, cs, k in tip_pixels(5, keep):
+            for j in range(4):
+                for f in (1e-4, 1e-3, 3e-3, 1e-2, 3e-2, 0.1):
+                    pts.append((1 - f) * cs[j] + f * c0)
+        base = hp.boundaries(1, np.arange(12), step=1, nest=True)          # (12, 3, 4)
+        for b in range(12):
+            c0 = np.array(hp.pix2vec(1, b, nest=True))
+            for j in range(4):
+                for f in (1e-4, 1e-3, 1e-2):
+                    pts.append((1 - f) * base[b, :, j] + f * c0)
+        for i in range(64):                                               # the transition ring |z| = 2/3
+            ph = (i + 0.37) * TWO_PI / 64
+            for z in (2 / 3, -2 / 3):
+                for dz in (-1e-3, 1e-3):
+                    zz = z + dz
+                    pts.append(np.array([math.sqrt(1 - zz * zz) * math.cos(ph), math.sqrt(1 - zz * zz) * math.sin(ph), zz]))
+        pts = _normalise(np.array(pts))
+        th, ph = hp.vec2ang(pts)
+        cand = np.unique(hp.ang2pix(ns, th, ph, nest=True))
+        nb = hp.get_all_neighbours(ns, cand, nest=True).ravel()
+        cand = np.unique(np.concatenate([cand, nb[nb >= 0]]))
+    bnd = np.moveaxis(hp.boundaries(ns, cand, step=1, nest=True), 1, 2)   # (N, 4, 3)
+    cen = np.array(hp.pix2vec(ns, cand, nest=True)).T                      # (N, 3)
+    dist = vec_angle(bnd, cen[:, None, :])                                 # (N, 4)
+    ratio = dist.max(axis=1) / hp.nside2resol(ns)
+    order = np.argsort(-ratio, kind='stable')[:keep]
+    out = [(float(ratio[i]), int(cand[i]), cen[i], bnd[i], int(np.argmax(dist[i]))) for i in order]
+    _TIPS[depth] = out
+    return out
+
+
+def tip_cases(ctx, depths, npix, thorough):
+    """circle cases placed in pixel tips.
+    A: sub-pixel disc whose centre lies in the outer few % of the long diagonal of an elongated pixel;
+    B: a larger disc whose edge reaches only the outer few % of that diagonal (centre outside the pixel)."""
+    import healpy as hp
+    rng = ctx.rng
+    out = []
+    for depth in depths:
+        ns = 2 ** depth
+        pix = pix_size(depth)
+        tips = tip_pixels(depth)
+        ctx.count(f'tip ratio depth {depth}: {tips[0][0]:.4f}')
+        chosen = tips[:npix] + ([tips[rng.randrange(npix, len(tips))]] if len(tips) > npix else [])
+        for ti, (ratio, p, c0, cs, k) in enumerate(chosen):
+            far = cs[k]
+            t_in = _normalise(c0 - float(np.dot(c0, far)) * far)        # unit tangent at the far corner, towards the centre
+            diag = float(vec_angle(far, c0))
+            fs = (0.002, 0.01, 0.03) if not thorough else (0.0005, 0.002, 0.005, 0.01, 0.02, 0.03, 0.045)
+            for f in fs:
+                v = math.cos(f * diag) * far + math.sin(f * diag) * t_in
+                th, ph = hp.vec2ang(v)
+                if int(hp.ang2pix(ns, th, ph, nest=True)[0]) != p:
+                    continue
+                room = ((1 - f) * ratio - 1) * pix
+                radii = {math.radians(0.01)}
+                if room > 0:
+                    radii.add(max(math.radians(0.01), 0.5 * room))
+                radii.add(max(math.radians(0.01), 0.02 * pix))
+                for r in sorted(radii):
+                    ra, dec = vec2radec(v)
+                    case = dict(kind='circle', id=f'tipA-{depth}-{p}-{f}-{r:.3e}', maxdepth=depth, depth=depth, deff=depth,
+                                circles=[(ra, dec, r)], form='scalar', centre_class='pixel-tip')
+                    pts = gen_points_circle(rng, ra, dec, r, pix, 3)
+                    out.append((case, pts))
+            # B: disc edge in the tip
+            gs = (0.01,) if not thorough else (0.003, 0.01, 0.02, 0.04)
+            rs = (0.5 * pix, 2.5 * pix) if not thorough else (0.3 * pix, pix, 2.5 * pix, 6 * pix)
+            for g in gs:
+                delta = g * pix
+                for r in rs:
+                    if r - delta <= 0 or r > math.radians(60):
+                        continue
+                    vc = math.cos(r - delta) * far - math.sin(r - delta) * t_in     # outside the pixel, beyond the far corner
+                    ra, dec = vec2radec(vc)
+                    case = dict(kind='circle', id=f'tipB-{depth}-{p}-{g}-{r:.3e}', maxdepth=depth, depth=depth, deff=depth,
+                                circles=[(ra, dec, r)], form='scalar', centre_class='pixel-tip-edge')
+                    pts = gen_points_circle(rng, ra, dec, r, pix, 3)
+                    for h in (0.25, 0.5, 0.75):
+                        t = math.cos(h * delta) * far + math.sin(h * delta) * t_in    # in the tip, inside the disc by (1-h)·delta
+                        pts.append(vec2radec(t) + ('tip',))
+                    out.append((case, pts))
+    return out
+
+
+def run_tip_cases(ctx, depths, npix, thorough, spec_only=False):
+    cases = tip_cases(ctx, depths, npix, thorough)
+    for k0 in range(0, len(cases), 4 * CHUNK):
+        gens = []
+        for case, pts in cases[k0:k0 + 4 * CHUNK]:
+            ctx.count('circle centre ' + case['centre_class'])
+            gens.append(run_circle_case(ctx, case, pts, spec_only))
+        drive(ctx, gens)
+        if spec_only and any(f['kind'] == 'spec' for f in ctx.failures):
+            return
+
+
 def circle_gen(ctx, k, budget, n_each, spec_only=False):
     case = make_circle_case(ctx, k, budget)
     c0 = case['circles'][0]
@@ -1012,6 +1138,12 @@ def poly_gen(ctx, k, budget, n_each, spec_only=False):
     ctx.count(f"polygon depth {case['deff']}")
     ctx.count(f"polygon vertices {len(case['positions'])}")
     ctx.count('polygon centre ' + case['centre_class'])
+    # the hypotheses of poly_in_circumcircle on this input: Rc <= pi/2 and every fan triangle has the polygon's orientation
+    vs = [unit(*p) for p in case['positions']]
+    s0 = float(np.dot(vs[0], np.cross(vs[1], vs[2])))
+    fan = all(s0 * float(np.dot(vs[0], np.cross(vs[i], vs[i + 1]))) > 0 for i in range(1, len(vs) - 1))
+    ctx.count('polygon fan-convex, Rc <= 90 deg (hypotheses of poly_in_circumcircle)' if fan and case['circum'][2] <= HALF_PI
+              else 'polygon outside the hypotheses of poly_in_circumcircle')
     return case, run_poly_case(ctx, case, pts, spec_only)
 
 
@@ -1025,6 +1157,7 @@ def run(ctx):
         drive(ctx, [circle_gen(ctx, k + 10 * ctx.seed, budget, n_each)[1] for k in range(k0, min(ncirc, k0 + CHUNK))])
     for k0 in range(0, npoly, CHUNK):
         drive(ctx, [poly_gen(ctx, k + 10 * ctx.seed, budget, n_each)[1] for k in range(k0, min(npoly, k0 + CHUNK))])
+    run_tip_cases(ctx, range(3, 9) if quick else range(3, 13), 2 if quick else 5, thorough=not quick)
     drive(ctx, [run_poly_case(ctx, c, []) for c in malformed_cases()])
     # a Spec failure found on a composite case: put its minimised form (one circle, scalar call, one position) first
     for f in list(ctx.failures):
@@ -1055,6 +1188,10 @@ def shrink_circle(ctx, case, fail):
 def search(ctx):
     """implementation vs Spec only, denser, with shrinking"""
     budget = 40000 if ctx.quick else 150000
+    n0 = len(ctx.failures)
+    run_tip_cases(ctx, range(3, 11), 6, thorough=True, spec_only=True)
+    if any(f['kind'] == 'spec' for f in ctx.failures[n0:]):
+        return
     n = 32 if ctx.quick else 144
     for k0 in range(0, n, CHUNK):
         n0 = len(ctx.failures)
